@@ -100,3 +100,61 @@ Proof.
   split. { repeat constructor; vm_compute; intuition discriminate. }
   split; [reflexivity|]. split; vm_compute; reflexivity.
 Qed.
+
+(* ------------------------------------------------------------------ tie (T): the functions REGENERATED from
+   cassandra/segment.py (Gen/SegmentGen.v, rewritten from the working tree on every run) are the model's functions.
+   compute_crc24, SegmentCodec.encode_header, SegmentCodec.decode_header and SegmentHeader.segment_length of the hand
+   model used above are, for every input, what the source says now; the statements are in Proofs/C06_bridge.v. *)
+Require Verif.Gen.SegmentGen Verif.Model.Crc24 Verif.Proofs.SegmentCrc_proofs Verif.Proofs.C06_bridge.
+
+Theorem C06_source_crc24_is_model : forall data len,
+  SegmentGen.compute_crc24 data len = compute_crc24 data (Z.to_nat len).
+Proof. exact C06_bridge.source_crc24_is_model. Qed.
+Print Assumptions C06_source_crc24_is_model.
+
+(* so the single-bit guarantee holds of the source's compute_crc24 itself (header lengths 3 and 5) *)
+Theorem C06_source_crc24_single_bit : forall hl data k, (hl = 3 \/ hl = 5) -> 0 <= data -> 0 <= k < 8 * hl ->
+  SegmentGen.compute_crc24 (Z.lxor data (2 ^ k)) hl <> SegmentGen.compute_crc24 data hl.
+Proof.
+  intros hl data k Hhl Hd Hk. rewrite !C06_bridge.source_crc24_is_model.
+  apply crc24_flip; [destruct Hhl as [-> | ->]; [left|right]; reflexivity|exact Hd|].
+  destruct Hhl as [-> | ->]; [change (Z.to_nat 3) with 3%nat|change (Z.to_nat 5) with 5%nat]; lia.
+Qed.
+Print Assumptions C06_source_crc24_single_bit.
+
+Theorem C06_source_encode_header_is_model : forall c pl ul sc, pl <= MAX_PAYLOAD_LENGTH ->
+  exists recs, SegmentGen.encode_header pl ul sc c (SegmentGen.header_length c) = PyBase.Ok recs /\
+               concat (map Crc24.write_uint_le_model recs) = encode_header c pl ul sc.
+Proof. exact C06_bridge.source_encode_header_is_model. Qed.
+Print Assumptions C06_source_encode_header_is_model.
+
+Theorem C06_source_encode_header_rejects : forall c pl ul sc hl, MAX_PAYLOAD_LENGTH < pl ->
+  SegmentGen.encode_header pl ul sc c hl = PyBase.Raise.
+Proof. exact C06_bridge.source_encode_header_rejects. Qed.
+Print Assumptions C06_source_encode_header_rejects.
+
+Theorem C06_source_decode_header_in_parse_seg : forall c decompress io,
+  header_length_with_crc c <= blen io ->
+  let hl := Z.to_nat (header_length c) in
+  parse_seg c decompress io =
+  match SegmentGen.decode_header c (SegmentGen.header_length c) (le_val (firstn hl io)) (le_val (firstn 3 (skipn hl io))) with
+  | PyBase.Ok (pl, ul, _) => C06_bridge.seg_tail c decompress pl ul io
+  | _ => SBad
+  end.
+Proof. exact C06_bridge.source_decode_header_in_parse_seg. Qed.
+Print Assumptions C06_source_decode_header_in_parse_seg.
+
+(* the source's header codec by itself: round trip and rejection of every CRC mismatch *)
+Theorem C06_source_header_roundtrip : forall c pl ul sc,
+  0 <= pl <= SegmentConsts.MAX_PAYLOAD_LENGTH -> 0 <= ul <= SegmentConsts.MAX_PAYLOAD_LENGTH ->
+  exists hd crc, SegmentGen.encode_header pl ul sc c (SegmentGen.header_length c) =
+                   PyBase.Ok [(hd, SegmentGen.header_length c); (crc, 3)] /\
+                 0 <= hd < 2 ^ (8 * SegmentGen.header_length c) /\ 0 <= crc < 2 ^ 24 /\
+                 SegmentGen.decode_header c (SegmentGen.header_length c) hd crc = PyBase.Ok (pl, (if c then ul else -1), sc).
+Proof. exact SegmentCrc_proofs.header_roundtrip. Qed.
+Print Assumptions C06_source_header_roundtrip.
+
+Theorem C06_source_header_crc_mismatch : forall c hl hd crc, crc <> SegmentGen.compute_crc24 hd hl ->
+  SegmentGen.decode_header c hl hd crc = PyBase.Raise.
+Proof. exact SegmentCrc_proofs.decode_header_crc_mismatch. Qed.
+Print Assumptions C06_source_header_crc_mismatch.
